@@ -69,6 +69,10 @@ func genC20Case(ctx *Ctx, i int) *c20case {
 					// the value of a mapping is everything after the FIRST '=': file names may contain one
 					m.out = fmt.Sprintf("one/%s=v2.go", f.Name)
 				}
+				if (i/4)%3 == 2 {
+					// several ids mapped to ONE file of that package
+					m.out = "one/all.go"
+				}
 			case 2:
 				m.pkg, m.out = fmt.Sprintf("%s/pk%d", c20Mod, k), fmt.Sprintf("pk%d/%s.go", k, f.Name)
 				if (i/4)%3 == 1 {
